@@ -257,8 +257,111 @@ def lemma_roundtrip(maxlen):
                     out["violations"].append(("identifier:relative-resolution", "':%s' in %s resolved to %s" % (nm, d, r_), nm))
         out["solver_s"] += time.perf_counter() - t0
         out["samples"].append({"accepted_strings_enumerated": n, "max_len": maxlen, "alphabet": ALPHA})
+        # deep package paths: accepted strings of the shape (//)? (x/){4..8} : n with x in {a, b}, enumerated by the solver as well
+        seg = z3.Union(z3.Re(z3.StringVal("a")), z3.Re(z3.StringVal("b")))
+        deep = z3.Concat(z3.Option(z3.Re(z3.StringVal("//"))), z3.Loop(z3.Concat(seg, z3.Re(z3.StringVal("/"))), 3, DEEP_MAX - 1), seg, z3.Re(z3.StringVal(":n")))
+        sol2 = z3.Solver()
+        sol2.set("timeout", 60000)
+        sol2.add(ex.accept, z3.InRe(s, deep))
+        nd = 0
+        t1 = time.perf_counter()
+        while nd < 1200:
+            r = sol2.check()
+            out["queries"] += 1
+            if r == z3.unsat:
+                break
+            if r != z3.sat:
+                out["inconclusive"].append("deep roundtrip enumeration: solver %s" % r)
+                break
+            w = smtstr.z3_unescape(sol2.model().eval(s, model_completion=True).as_string())
+            sol2.add(s != z3.StringVal(w))
+            nd += 1
+            out["obligations"] += 1
+            try:
+                a = TaskIdentifier.from_str(w, require_prefix=False)
+                printed = str(a)
+                b = TaskIdentifier.from_str(printed)
+                segs = w.lstrip("/").rsplit(":", 1)[0].split("/")
+                ok = a == b and hash(a) == hash(b) and printed == "//" + w.lstrip("/") and list(a.path.parts) == segs and a.name == "n"
+                detail = "%r -> %r -> %r" % (w, printed, str(b))
+            except Exception as e:
+                ok, detail = False, "%r: %r" % (w, e)
+            if ok:
+                out["discharged"] += 1
+            else:
+                out["violations"].append(("identifier:roundtrip", "print/parse round trip fails for a deep package path: " + detail, w))
+                break
+        out["samples"].append({"deep_paths_enumerated": nd, "segments": "4..%d" % DEEP_MAX})
+        out["solver_s"] += time.perf_counter() - t1
         return out
     return fn
+
+
+DEEP_MAX = 8
+
+
+def lemma_rejection_terminates():
+    """Every parser answers (accepts or rejects with a ConductorError) within a time budget on long near-miss
+    strings: long runs of valid characters followed by one invalid character.  The strings come from the solver:
+    members of the complement of the extracted accept set inside a near-miss template."""
+    import signal as _signal
+    eps, exc = entry_points()
+    out = {"obligations": 0, "discharged": 0, "queries": 0, "solver_s": 0.0, "violations": [], "samples": [], "inconclusive": []}
+
+    class _Timeout(BaseException):
+        pass
+
+    def on_alarm(signum, frame):
+        raise _Timeout()
+    for label, kind, call, seeds in eps:
+        ex = smtstr.extract(call, MODS, seeds=seeds, reject_exc=(exc,))
+        out["queries"] += ex.queries
+        out["solver_s"] += ex.solver_s
+        sv = ex.var
+        words = []
+        t0 = time.perf_counter()
+        for L in (24, 48, 96):
+            # a long accepted string chosen by the solver, damaged at the end / in the middle
+            sol = z3.Solver()
+            sol.set("timeout", 20000)
+            sol.add(ex.accept, z3.Length(sv) == L)
+            r = sol.check()
+            out["queries"] += 1
+            if r == z3.sat:
+                w0 = smtstr.z3_unescape(sol.model().eval(sv, model_completion=True).as_string())
+                words += [w0 + "!", w0 + chr(10) + "x", w0 + " ", w0[:L // 2] + "!" + w0[L // 2:], w0 + "/:"]
+        out["solver_s"] += time.perf_counter() - t0
+        # plus the classic shapes, at several lengths
+        for L in (30, 60, 200, 2000):
+            words += ["//" + "a" * L + "!", "a/" * L + "!", "//" + "a/" * (L // 2) + ":n!", "//" + "a/" * (L // 2) + "n", ":" + "a" * L + chr(10),
+                      "//" + "a-" * L + ":x" + chr(10), "a" * L + " ", "//" + "/".join(["ab"] * (L // 3)) + ":" + "n" * L + "!"]
+        for w in words:
+            out["obligations"] += 1
+            old = _signal.signal(_signal.SIGALRM, on_alarm)
+            _signal.setitimer(_signal.ITIMER_REAL, REJECT_BUDGET_S)
+            t1 = time.perf_counter()
+            try:
+                real_accepts(call, w, exc)
+                took = time.perf_counter() - t1
+                done = True
+            except _Timeout:
+                done = False
+            except Exception as e:
+                done = True         # (what it answers is the acceptance lemma's subject)
+            finally:
+                _signal.setitimer(_signal.ITIMER_REAL, 0)
+                _signal.signal(_signal.SIGALRM, old)
+            if done:
+                out["discharged"] += 1
+            else:
+                out["violations"].append(("identifier:parser-does-not-terminate", "%s does not answer within %d s on a %d-character string %r..." % (
+                    label, REJECT_BUDGET_S, len(w), w[:40]), w))
+                break
+        out["samples"].append({"entry_point": label, "near_miss_strings": len(words)})
+    return out
+
+
+REJECT_BUDGET_S = 20
 
 
 # ---------------------------------------------------------------- obligation 4
@@ -429,6 +532,8 @@ def lemmas(tier):
                 "6 entry points (is_name_valid, from_str with/without required prefix, from_relative_str, run_experiment(name=), "
                 "deps resolution); strings of unbounded length over full Unicode; 3 obligations each"),
           Lemma("unambiguous-decomposition", lemma_unambiguous, "every pattern with named groups in conductor.task_identifier; unbounded strings; cvc5"),
+          Lemma("rejection-terminates", lemma_rejection_terminates, "six entry points; near-miss strings of 25..2000 characters (solver-chosen "
+                "members of the complement of the accept set + classic shapes); each must be answered within 20 s"),
           Lemma("roundtrip-len6", lemma_roundtrip(6), "every accepted string of length <= 6 over {a,-,/,:,\\n}, enumerated by z3 with blocking clauses", tiers=("quick",)),
           Lemma("injective-output-dirs-k1", lemma_injective(1), "identifiers with <=1 path segment, version present/absent; cvc5 word equations, unbounded component lengths", tiers=("quick",))]
     if tier == "thorough":
@@ -479,6 +584,14 @@ class rewrite_module_regex:
 def replay_witness(d):
     w = d["values"].get("witness")
     eps, exc = entry_points()
+    if d["sig"] == "identifier:roundtrip":
+        from conductor.task_identifier import TaskIdentifier
+        try:
+            a = TaskIdentifier.from_str(w, require_prefix=False)
+            b = TaskIdentifier.from_str(str(a))
+            return not (a == b and str(a) == "//" + w.lstrip("/"))
+        except Exception:
+            return True
     for label, kind, fn, _ in eps:
         if d["sig"].endswith(":" + label):
             return real_accepts(fn, w, exc) != in_spec(kind, w)
